@@ -302,7 +302,7 @@ impl Vm {
     // changes. Otherwise: the innermost handler h is removed and only h; the value stack is what it was when h was
     // installed (the handling function's variables intact) plus the exception value; the call stack is cut back to
     // h's frame; execution continues at h's catch address.
-    //@fn file=yarel/src/vm.rs path=Vm::unwind_stack ret=r props=C08,C14,C17
+    //@fn file=yarel/src/vm.rs path=Vm::unwind_stack ret=r props=C08,C14,C17,C02
     //@  requires old(self).fib.handlers_ok(), old(self).fib.stack.view.len() > 0
     //@  requires old(self).fib.exc_handlers@.len() > 0 ==> old(self).fib.exc_handlers@.last().init_stack_size < STACK_MAX
     //@  ensures old(self).fib.exc_handlers@.len() == 0 ==> r is Err && final(self).fib.stack == old(self).fib.stack && final(self).fib.frames == old(self).fib.frames && final(self).fib.exc_handlers@ == old(self).fib.exc_handlers@
